@@ -62,6 +62,7 @@ deriving Repr, DecidableEq
 /-- where the coroutine is, i.e. which `try` blocks enclose the current point -/
 inductive Lvl
   | connPhase        -- `connection_phase()` / `session.init` inside the first `try` of `_start`
+  | initing          -- inside `await self.session.init(self)` (same `try`)
   | connArm          -- `except Exception` of that `try`: writing ERR 1043 before re-raising
   | handler          -- inside the dispatch `try` of `command_phase`
   | cmdArm           -- inside an `except` arm of `command_phase` (writing the ERR)
@@ -92,6 +93,9 @@ structure S where
   lost : Bool := false              -- transport lost: every drain raises, reads raise
   eofSeen : Bool := false           -- the client closed its side; noticed at the next read
   initDone : Bool := false          -- `session.init` completed
+  initSusp : Bool := false          -- environment: `session.init` awaits something pending
+  initFails : Bool := false         -- environment: `session.init` raises
+  closeFails : Bool := false        -- environment: `session.close` raises
   closeCalls : Nat := 0             -- calls of `session.close`
   registered : Bool := true         -- present in the Control registry
   transportClosed : Bool := false
@@ -101,7 +105,7 @@ structure S where
 deriving Repr
 
 inductive Ev
-  | handshake (script : List Op)    -- handshake response arrives: the rest of `connection_phase` + `session.init`
+  | handshake (script : List Op) (initSusp initFails : Bool)   -- handshake response arrives: the rest of `connection_phase`, then `session.init`
   | cmd (script : List Op)          -- a command packet arrives
   | resume                          -- the awaited thing completed (future resolved / next loop tick)
   | block
@@ -166,7 +170,7 @@ def runOps (lvl : Lvl) (onEnd : S → Option Exc → S) (onThrow : S → Exc →
 def runClosing (s : S) (ops : List Op) (exc : Option Exc) : S :=
   runOps .closing (fun s e => release s e) (fun s e => release s (some e)) s ops exc
 
-def closeSession (s : S) (exc : Option Exc) : S := runClosing s [.call .close false false] exc
+def closeSession (s : S) (exc : Option Exc) : S := runClosing s [.call .close false s.closeFails] exc
 
 /-- `except CancelledError` of `_start` with `_kill == CONNECTION` -/
 def runStartArm (s : S) (ops : List Op) : S :=
@@ -216,13 +220,25 @@ def throwConn (s : S) (e : Exc) : S :=
   | .cancelled => release s (some .cancelled)             -- BaseException: not caught; the session was never initialised
   | _ => runConnArm s [.emit (.err .handshake), .drain] e
 
+/-- `session.init` returned or raised -/
+def finishInit (s : S) : S :=
+  if s.initFails then throwConn s .generic else toIdle { s with initDone := true }
+
+/-- `await self.session.init(self)` -/
+def startInit (s : S) : S :=
+  if s.initSusp then
+    if s.mustCancel then throwConn { s with mustCancel := false } .cancelled
+    else { s with phase := .parked .initing .future [] none }
+  else finishInit s
+
 def runConnPhase (s : S) (ops : List Op) : S :=
-  runOps .connPhase (fun s _ => toIdle s) throwConn s ops none
+  runOps .connPhase (fun s _ => startInit s) throwConn s ops none
 
 /-- resume a parked coroutine at its level -/
 def resumeAt (s : S) (lvl : Lvl) (rest : List Op) (exc : Option Exc) : S :=
   match lvl with
   | .connPhase => runConnPhase s rest
+  | .initing => finishInit s
   | .connArm => runOps .connArm (fun s exc => release s exc) (fun s e' => release s (some e')) s rest exc
   | .handler => runHandler s rest
   | .cmdArm => runCmdArm s rest
@@ -233,6 +249,7 @@ def resumeAt (s : S) (lvl : Lvl) (rest : List Op) (exc : Option Exc) : S :=
 def throwAt (s : S) (lvl : Lvl) (e : Exc) : S :=
   match lvl with
   | .connPhase => throwConn s e
+  | .initing => throwConn s e
   | .connArm => release s (some e)
   | .handler => throwHandler s e
   | .cmdArm => throwStart s e
@@ -240,9 +257,9 @@ def throwAt (s : S) (lvl : Lvl) (e : Exc) : S :=
   | .closing => release s (some e)
 
 def step (s : S) : Ev → S
-  | .handshake script =>
+  | .handshake script isusp ifails =>
     match s.phase with
-    | .greeting => runConnPhase s script
+    | .greeting => runConnPhase { s with initSusp := isusp, initFails := ifails } script
     | _ => s
   | .cmd script =>
     match s.phase with
